@@ -17,7 +17,7 @@ class C13(Prop):
     LONG_BIAS = 0.2
     BACKENDS = ("file", "file", "memory")
     WEIGHTS = {"page": 5, "pages": 2, "links": 2, "batch": 2, "again": 0, "create": 4, "delete": 2, "addprefix": 4,
-               "rmprefix": 2, "move": 3, "rule": 2, "unrule": 1, "reopen": 1, "clear": 1}
+               "rmprefix": 2, "move": 3, "rule": 2, "unrule": 1, "reopen": 1, "clear": 1, "recreate": 1}
     QUICK = (40, 22)
     THOROUGH = (200, 40)
     TECHNIQUE = ("stateful property-based testing (Hypothesis) against a ledger oracle; thorough tier adds coverage-guided "
